@@ -20,13 +20,13 @@ func init() {
 
 type findBugView struct {
 	fn        *ssa.Function
-	checkOnce *callSite   // the per-iteration checkOnce call
-	loop      *loopInfo   // loop containing it
-	seedVal   ssa.Value   // the value the PRNG of that test case is initialised with
-	seedSite  *callSite   // init / constructor call that seeds it
-	validPhi  *ssa.Phi    // counters (from the loop predicate)
-	invPhi    *ssa.Phi    //
-	errVal    ssa.Value   // checkOnce result
+	checkOnce *callSite // the per-iteration checkOnce call
+	loop      *loopInfo // loop containing it
+	seedVal   ssa.Value // the value the PRNG of that test case is initialised with
+	seedSite  *callSite // init / constructor call that seeds it
+	validPhi  *ssa.Phi  // counters (from the loop predicate)
+	invPhi    *ssa.Phi  //
+	errVal    ssa.Value // checkOnce result
 	failRets  []*ssa.Return
 	otherRets []*ssa.Return
 }
@@ -119,6 +119,7 @@ func specC07() *propertySpec {
 			{"C07-R2", "first-case-is-base: per-case seed = accumulated seed + (valid+invalid), which is the seed parameter unchanged in iteration 0", ruleC07R2},
 			{"C07-R3", "chain: flags.seed → baseSeed → checkTB → doCheck → findBug → reproduce run → returned → printed with -rapid.seed=%d", ruleC07R3},
 			{"C07-R4", "whole-run-determinism: no nondeterminism source in the closure of doCheck except the listed time-dependent constructs; the stream position (which counts draws of earlier test cases) is used only relatively (shared with C11-R3)", func(r *Run) { ruleC07R4(r); ruleStreamPositionRelative(r) }},
+			{"C07-R5", "no-run-history-in-globals: package-level variables (the parsed flags included) are not written after initialisation, so a test case cannot depend on the test cases run before it (shared with C15-R4)", ruleC15R4},
 		},
 	}
 }
@@ -332,6 +333,7 @@ func specC09() *propertySpec {
 			{"C09-R3", "verdict: 'OK, passed' only under err1==nil ∧ err2==nil ∧ (valid==checks ∨ (earlyExit ∧ valid>0)); otherwise a failing TB call; checks derives from flags.checks", ruleC09R3},
 			{"C09-R4", "failnow: tb.FailNow() under tb.Failed() post-dominates every tb.Errorf of checkTB; Check/MakeCheck do nothing after checkTB", ruleC09R4},
 			{"C09-R5", "no-extra-invocations: after findBug returned nil nothing invokes the property; earlyExit is true only on the deadline return", ruleC09R5},
+			{"C09-R6", "deadline-source: checkDeadline returns the test's own deadline only where Deadline() reported one (ok == true), otherwise now + maxTestTimeout: a zero deadline would end the random phase after the first test case", ruleC09R6},
 		},
 	}
 }
@@ -414,12 +416,14 @@ func ruleC09R1(r *Run) {
 			if isIf {
 				rl := p.relOf(guard{Cond: iff.Cond, Pol: si == 0})
 				desc = rl.String()
-				if bo, okb := p.resolve(iff.Cond).(*ssa.BinOp); okb && si == 1 {
-					x := p.resolve(bo.X)
-					if x == ssa.Value(v.validPhi) || x == ssa.Value(v.invPhi) {
-						r.OK("findBug#loop.exit", iff.Pos(), "loop exit on "+desc)
-						continue
-					}
+				// the edge is taken exactly when one of the two counters has reached its bound (in whatever way the
+				// comparison is written: operands swapped, loop condition negated into a break)
+				isCounter := func(s string) bool {
+					return (v.validPhi != nil && s == p.expr(v.validPhi)) || (v.invPhi != nil && s == p.expr(v.invPhi))
+				}
+				if (isCounter(rl.X) && rl.Op == ">=") || (isCounter(rl.Y) && rl.Op == "<=") {
+					r.OK("findBug#loop.exit", iff.Pos(), "loop exit on "+desc)
+					continue
 				}
 			}
 			// must lead only to early-exit/failure returns
@@ -481,8 +485,26 @@ func ruleC09R2(r *Run) {
 		if !ok {
 			break
 		}
-		if ph.Comment == "valid" || ph.Comment == "invalid" {
-			counters = append(counters, upd{ph, ph.Comment})
+		// the counters are identified by the result they are returned as: findBug returns (valid, invalid, …)
+		for _, ret := range returnsOf(v.fn) {
+			done := false
+			for k, name := range []string{"valid", "invalid"} {
+				if k < len(ret.Results) && p.resolve(p.res(ret, k)) == ssa.Value(ph) {
+					dup := false
+					for _, c := range counters {
+						if c.phi == ph {
+							dup = true
+						}
+					}
+					if !dup {
+						counters = append(counters, upd{ph, name})
+					}
+					done = true
+				}
+			}
+			if done {
+				break
+			}
 		}
 	}
 	if len(counters) != 2 {
@@ -828,4 +850,40 @@ func ruleC09R5(r *Run) {
 
 func ruleC07R4(r *Run) {
 	nondetCensus(r, "doCheck", []string{"doCheck", "<generation>"}, true)
+}
+
+// ruleC09R6: the check deadline decides how many test cases run (findBug exits early when it is near). With no test
+// deadline (-timeout=0) Deadline() returns the zero time and ok == false; using that value ends the run after one case.
+func ruleC09R6(r *Run) {
+	p := r.P
+	fn := r.MustFn("checkDeadline")
+	if fn == nil {
+		return
+	}
+	n := 0
+	for _, ret := range returnsOf(fn) {
+		for _, a := range p.alternatives(p.res(ret, 0), 0) {
+			n++
+			facts := append(append([]rel{}, a.Facts...), p.facts(ret)...)
+			av := p.resolve(a.Val)
+			ex := p.expr(av)
+			switch {
+			case strings.HasPrefix(ex, "(time.Time).Add(time.Now(), "):
+				d, okc := int64(0), false
+				if c, isCall := av.(*ssa.Call); isCall {
+					d, okc = constInt(p.resolve(c.Common().Args[1]))
+				}
+				r.Check("checkDeadline#default", ret.Pos(), okc && d >= int64(60e9), "without a test deadline the check deadline is now + a long constant", "the default check deadline is now + "+fmt.Sprint(d)+"ns")
+			case strings.Contains(ex, ").Deadline("):
+				okFlag := false
+				if e, isEx := av.(*ssa.Extract); isEx && e.Index == 0 {
+					okFlag = holds(facts, p.expr(e.Tuple)+"#1", "==", "true")
+				}
+				r.Check("checkDeadline#own-deadline-only-if-set", ret.Pos(), okFlag, "the test's own deadline is used only when Deadline() reports one", "checkDeadline returns the value of Deadline() without its ok result being true: without a test deadline (-timeout=0) that is the zero time, the random phase stops after the first test case and Check passes with 1 test instead of N")
+			default:
+				r.Fail("checkDeadline#source", ret.Pos(), "checkDeadline returns "+ex+", which is neither the test's deadline nor now + maxTestTimeout")
+			}
+		}
+	}
+	r.Floor("deadline sources of checkDeadline", n, 2)
 }
